@@ -252,3 +252,169 @@ contract('AdbDevice._open',
                    'ite(result.read_timeout_s < val(transport_timeout_s), result.read_timeout_s, val(transport_timeout_s)))'),
                   RELEASED, MONO],
          raises=exc_all([('C14', 'id-advanced-even-on-failure', 'self._local_id == %s' % NEXTID), RELEASED, MONO]))
+
+
+# ======================================================================================================================
+# shell / exec chain  (C01, C04, C11, C13)
+
+OKAYF = "frame(OKAY, adb_info.local_id, adb_info.remote_id, b'')"
+CLSEF = "frame(CLSE, adb_info.local_id, adb_info.remote_id, b'')"
+
+contract('AdbDevice._read_until_close',
+         real=dev('_read_until_close'),
+         params={'self': 'obj:AdbDevice', 'adb_info': 'obj:AdbInfo'},
+         gen={'elem': 'D_data({0}, {1} + _i)'.format(LID, DI0), 'joined': 'catD({0}, {1}, _n)'.format(LID, DI0),
+              'facts': ['D_cmd({0}, {1} + _i) == WRTE'.format(LID, DI0)]},
+         props=['C01', 'C04', 'C11', 'C12'],
+         requires=STREAM_OK + [NOLOCK],
+         modifies=IO_MOD + RD_MOD,
+         yield_havoc=[],
+         on_yield=[('C01', 'yields-the-payloads-in-order', 'value == D_data({0}, {1} + _yi)'.format(LID, DI0)),
+                   ('C01', 'only-WRTE-payloads', 'D_cmd({0}, {1} + _yi) == WRTE'.format(LID, DI0)),
+                   ('C04', 'acknowledged-before-handing-out', 'G.wire == old(G.wire) + rep(%s, _yi + 1)' % OKAYF),
+                   ('C01,C04', 'position', 'G.di == store(old(G.di), {0}, {1} + _yi + 1)'.format(LID, DI0))],
+         ensures=[('C01', 'stops-at-the-first-CLSE', 'D_cmd({0}, {1} + _n) == CLSE'.format(LID, DI0)),
+                  ('C01,C04', 'consumed-n-payloads-and-the-CLSE', 'G.di == store(old(G.di), {0}, {1} + _n + 1)'.format(LID, DI0)),
+                  ('C04', 'one-OKAY-per-WRTE-then-exactly-one-CLSE', 'G.wire == old(G.wire) + rep(%s, _n) + %s' % (OKAYF, CLSEF)),
+                  RELEASED, MONO],
+         raises=exc_all([RELEASED, MONO]),
+         loops={0: dict(invariant=[
+             ('C01,C04,C11', 'G.di == store(old(G.di), {0}, {1} + _yi)'.format(LID, DI0)),
+             ('C04', 'G.wire == old(G.wire) + rep(%s, _yi)' % OKAYF),
+             ('C01,C04,C11,C12', UNLOCKED),
+             ('C01,C04,C11', MONO + ' and G.rpos >= 0'),
+             ('C11', 'start >= old(G.now)'),
+         ])},
+         doc='yields the WRTE payloads of the stream one by one, each acknowledged, until the device CLSE, which is answered with one CLSE')
+
+# after AdbTimeoutError the generator has consumed at least what it yielded -> see raises above
+dsl_rc = None
+
+contract('AdbDevice._streaming_command',
+         real=dev('_streaming_command'),
+         params={'self': 'obj:AdbDevice', 'service': 'bytes', 'command': 'bytes', 'transport_timeout_s': 'opt[real]', 'read_timeout_s': 'real',
+                 'timeout_s': 'opt[real]'},
+         gen={'elem': 'D_data({0}, old(G.di)[{0}] + 1 + _i)'.format(NEXTID), 'joined': 'catD({0}, old(G.di)[{0}] + 1, _n)'.format(NEXTID),
+              'facts': ['D_cmd({0}, old(G.di)[{0}] + 1 + _i) == WRTE'.format(NEXTID)]},
+         props=['C01', 'C04', 'C14', 'C12'],
+         requires=['self._local_id >= 0 and self._local_id < 2**32', 'G.rpos >= 0 and G.rpos <= len(G.dev)', NOLOCK],
+         modifies=OPEN_MOD,
+         on_yield=[('C01', 'yields-the-payloads-in-order', 'value == D_data({0}, old(G.di)[{0}] + 1 + _yi)'.format(NEXTID)),
+                   ('C01', 'only-WRTE-payloads', 'D_cmd({0}, old(G.di)[{0}] + 1 + _yi) == WRTE'.format(NEXTID))],
+         ensures=[('C01', 'stops-at-the-first-CLSE', 'D_cmd({0}, old(G.di)[{0}] + 1 + _n) == CLSE and D_cmd({0}, old(G.di)[{0}]) == OKAY'.format(NEXTID)),
+                  ('C01,C04', 'consumed-OKAY-n-payloads-CLSE', 'G.di == store(old(G.di), {0}, old(G.di)[{0}] + _n + 2)'.format(NEXTID)),
+                  ('C14', 'stream-id', 'self._local_id == %s' % NEXTID),
+                  ('C01,C04', 'OPEN-then-one-OKAY-per-WRTE-then-one-CLSE',
+                   "G.wire == old(G.wire) + frame(OPEN, {0}, 0, service + b':' + command + b'\\0') + rep(frame(OKAY, {0}, D_a0({0}, old(G.di)[{0}]), b''), _n)"
+                   " + frame(CLSE, {0}, D_a0({0}, old(G.di)[{0}]), b'')".format(NEXTID)),
+                  RELEASED, MONO],
+         raises=exc_all([RELEASED, MONO]),
+         doc="OPEN 'service:command\\\\0' on a fresh stream, then as _read_until_close")
+
+SVC_N = '(G.di[{0}] - old(G.di)[{0}] - 2)'.format(NEXTID)
+SVC_BYTES = 'catD({0}, old(G.di)[{0}] + 1, {1})'.format(NEXTID, SVC_N)
+
+
+def svc_wire(service_expr, command_expr):
+    """OPEN 'service:command\0' on the fresh stream, one OKAY per delivered WRTE, one CLSE -- and nothing else."""
+    rem = 'D_a0({0}, old(G.di)[{0}])'.format(NEXTID)
+    return ("G.wire == old(G.wire) + frame(OPEN, {lid}, 0, {svc} + b':' + {cmd} + b'\\0') + rep(frame(OKAY, {lid}, {rem}, b''), {n})"
+            " + frame(CLSE, {lid}, {rem}, b'')").format(lid=NEXTID, svc=service_expr, cmd=command_expr, rem=rem, n=SVC_N)
+
+
+contract('AdbDevice._service',
+         real=dev('_service'),
+         params={'self': 'obj:AdbDevice', 'service': 'bytes', 'command': 'bytes', 'transport_timeout_s': 'opt[real]', 'read_timeout_s': 'real',
+                 'timeout_s': 'opt[real]', 'decode': 'bool'},
+         returns={'by': 'decode', True: 'str', False: 'bytes'},
+         props=['C01', 'C04', 'C12'],
+         requires=['self._local_id >= 0 and self._local_id < 2**32', 'G.rpos >= 0 and G.rpos <= len(G.dev)', NOLOCK],
+         modifies=OPEN_MOD,
+         ensures=[('C01', 'raw-result-is-the-exact-concatenation', 'implies(not decode, same(result, %s))' % SVC_BYTES),
+                  ('C01', 'decoded-once-over-the-whole-concatenation-backslashreplace', 'implies(decode, same(result, dec_bsr(%s)))' % SVC_BYTES),
+                  ('C01', 'payload-count-nonnegative', SVC_N + ' >= 0'),
+                  ('C01,C04', 'OPEN-service:command-then-one-OKAY-per-WRTE-then-one-CLSE', svc_wire('service', 'command')),
+                  ('C01', 'stream-closed-by-device', 'D_cmd({0}, G.di[{0}] - 1) == CLSE'.format(NEXTID)),
+                  RELEASED, MONO],
+         raises=exc_all([RELEASED, MONO]),
+         doc='b"".join of the payloads; decode applied once to the whole join with errors=backslashreplace, so it never raises')
+
+contract('AdbDevice._streaming_service',
+         real=dev('_streaming_service'),
+         params={'self': 'obj:AdbDevice', 'service': 'bytes', 'command': 'bytes', 'transport_timeout_s': 'opt[real]', 'read_timeout_s': 'real',
+                 'decode': 'bool'},
+         variants=[{'decode': 'lit:True'}, {'decode': 'lit:False'}],
+         gen={'elem': 'ite(decode, dec_bsr(D_data({0}, old(G.di)[{0}] + 1 + _i)), D_data({0}, old(G.di)[{0}] + 1 + _i))'.format(NEXTID)},
+         props=['C01', 'C12'],
+         requires=['self._local_id >= 0 and self._local_id < 2**32', 'G.rpos >= 0 and G.rpos <= len(G.dev)', NOLOCK],
+         modifies=OPEN_MOD,
+         on_yield=[('C01', 'raw-payloads-in-order', 'implies(not decode, same(value, D_data({0}, old(G.di)[{0}] + 1 + _yi)))'.format(NEXTID)),
+                   ('C01', 'each-payload-decoded-on-its-own', 'implies(decode, same(value, dec_bsr(D_data({0}, old(G.di)[{0}] + 1 + _yi))))'.format(NEXTID))],
+         ensures=[('C01', 'all-payloads-until-CLSE', 'G.di == store(old(G.di), {0}, old(G.di)[{0}] + _n + 2) and '
+                                                      'D_cmd({0}, old(G.di)[{0}] + 1 + _n) == CLSE'.format(NEXTID)),
+                  RELEASED, MONO],
+         raises=exc_all([RELEASED, MONO]))
+
+NOT_CONNECTED = [('C13', 'only-when-not-available', 'not old(self._available)'),
+                 ('C13', 'not-a-byte-written', 'G.wire == old(G.wire) and G.nwrites == old(G.nwrites)'),
+                 ('C13', 'no-local-file-created', 'G.files_opened == old(G.files_opened)'),
+                 ('C13', 'nothing-read-no-stream-opened', 'G.rpos == old(G.rpos) and self._local_id == old(self._local_id) and G.di == old(G.di)'),
+                 RELEASED]
+
+
+def op_raises(extra=()):
+    d = exc_all([RELEASED, MONO, ('C13', 'was-available', 'old(self._available)')])
+    d['AdbConnectionError'] = list(NOT_CONNECTED)
+    for k, v in extra:
+        d[k] = v
+    return d
+
+
+OP_REQ = ['self._local_id >= 0 and self._local_id < 2**32', 'G.rpos >= 0 and G.rpos <= len(G.dev)', NOLOCK]
+AVAIL = ('C13', 'was-available', 'old(self._available)')
+
+for _name, _svc in (('shell', "b'shell'"), ('exec_out', "b'exec'")):
+    contract('AdbDevice.' + _name,
+             real=dev(_name),
+             params={'self': 'obj:AdbDevice', 'command': 'str', 'transport_timeout_s': 'opt[real]', 'read_timeout_s': 'real', 'timeout_s': 'opt[real]',
+                     'decode': 'bool'},
+             returns={'by': 'decode', True: 'str', False: 'bytes'},
+             props=['C01', 'C13', 'C12'],
+             requires=OP_REQ,
+             modifies=OPEN_MOD,
+             ensures=[AVAIL,
+                      ('C01', 'raw-result-is-the-exact-concatenation', 'implies(not decode, same(result, %s))' % SVC_BYTES),
+                      ('C01', 'decoded-once-over-the-whole-concatenation', 'implies(decode, same(result, dec_bsr(%s)))' % SVC_BYTES),
+                      ('C01,C04', 'OPEN-destination-then-one-OKAY-per-WRTE-then-one-CLSE', svc_wire(_svc, 'utf8(command)')),
+                      RELEASED, MONO],
+             raises=op_raises())
+
+contract('AdbDevice.root',
+         real=dev('root'),
+         params={'self': 'obj:AdbDevice', 'transport_timeout_s': 'opt[real]', 'read_timeout_s': 'real', 'timeout_s': 'opt[real]'},
+         props=['C01', 'C13', 'C12'],
+         requires=OP_REQ, modifies=OPEN_MOD,
+         ensures=[AVAIL, ('C01', 'stream-run-to-close', 'D_cmd({0}, G.di[{0}] - 1) == CLSE'.format(NEXTID)), RELEASED, MONO],
+         raises=op_raises())
+
+contract('AdbDevice.reboot',
+         real=dev('reboot'),
+         params={'self': 'obj:AdbDevice', 'fastboot': 'bool', 'transport_timeout_s': 'opt[real]', 'read_timeout_s': 'real', 'timeout_s': 'opt[real]'},
+         props=['C13', 'C12'],
+         requires=OP_REQ, modifies=OPEN_MOD,
+         ensures=[AVAIL, RELEASED, MONO],
+         raises=op_raises())
+
+contract('AdbDevice.streaming_shell',
+         real=dev('streaming_shell'),
+         params={'self': 'obj:AdbDevice', 'command': 'str', 'transport_timeout_s': 'opt[real]', 'read_timeout_s': 'real', 'decode': 'bool'},
+         variants=[{'decode': 'lit:True'}, {'decode': 'lit:False'}],
+         gen={'elem': 'ite(decode, dec_bsr(D_data({0}, old(G.di)[{0}] + 1 + _i)), D_data({0}, old(G.di)[{0}] + 1 + _i))'.format(NEXTID)},
+         props=['C01', 'C13', 'C12'],
+         requires=OP_REQ, modifies=OPEN_MOD,
+         on_yield=[('C01', 'raw-payloads-in-order', 'implies(not decode, same(value, D_data({0}, old(G.di)[{0}] + 1 + _yi)))'.format(NEXTID)),
+                   ('C01', 'each-payload-decoded-on-its-own', 'implies(decode, same(value, dec_bsr(D_data({0}, old(G.di)[{0}] + 1 + _yi))))'.format(NEXTID))],
+         ensures=[AVAIL, ('C01', 'all-payloads-until-CLSE', 'G.di == store(old(G.di), {0}, old(G.di)[{0}] + _n + 2) and '
+                                                            'D_cmd({0}, old(G.di)[{0}] + 1 + _n) == CLSE'.format(NEXTID)),
+                  RELEASED, MONO],
+         raises=op_raises())
